@@ -17,7 +17,7 @@ directory name contains '.'; then full_name = '.'.join(dirs + [Short]), version 
 """
 import z3
 from pyvc import strmodel
-from pyvc.spec import contract, class_spec
+from pyvc.spec import contract, class_spec, REG
 from pyvc.values import Int, Bool, Str, Opt, SeqOf, ObjOf, PathK, Rec, Kind, PathV, JoinedStr, PathSort, SymSeq, PyList
 from pyvc.speclib import AND, OR, NOT, IMPLIES, IFF, ITE, EQ, IS_NONE, VAL, FORALL_IDX, EXISTS_IDX, LEN, AT, smt
 from pyvc import speclib
@@ -287,6 +287,42 @@ def _build_basename(desc):
 
 
 NATIVE.add(DEF + ".__init__@basename", _gen_path, _build_basename)
+
+# the name accessors of a real DSDLDefinition (constructed from a real file in a scratch directory): names in which a
+# namespace component equals, or starts with, the short name (ns/Foo/Foo.1.0.dsdl, fleet/Motors/Motor.1.0.dsdl) included
+_NS_SHAPES = [["ns"], ["ns", "sub"], ["fleet", "Motors"], ["ns", "Foo"], ["Foo", "Foo"], ["a", "b", "a"], ["ab", "a", "abc"]]
+_SHORTS = ["Foo", "Motor", "a", "ab", "sub", "ns", "X"]
+
+
+def _gen_def_name(rng, i):
+    return {"dirs": _NS_SHAPES[i % len(_NS_SHAPES)] if i < 3 * len(_NS_SHAPES) else rng.choice(_NS_SHAPES),
+            "short": _SHORTS[(i // len(_NS_SHAPES)) % len(_SHORTS)] if i < 3 * len(_NS_SHAPES) else rng.choice(_SHORTS),
+            "port": rng.choice([None, None, 7000])}
+
+
+def _build_def_accessor(member):
+    def build(desc):
+        import shutil
+        import tempfile
+        from pathlib import Path
+        from pydsdl import _dsdl_definition as M
+
+        top = Path(tempfile.mkdtemp(prefix="c15-name-")).resolve()
+        try:
+            d = top.joinpath(*desc["dirs"])
+            d.mkdir(parents=True)
+            f = d / ("%s%s.1.0.dsdl" % ("" if desc["port"] is None else "%d." % desc["port"], desc["short"]))
+            f.write_text("@sealed\n")
+            obj = M.DSDLDefinition(f, top / desc["dirs"][0])
+        finally:
+            shutil.rmtree(top, ignore_errors=True)
+        return (lambda: getattr(obj, member)), {"self": obj}
+    return build
+
+
+for _member in ("full_namespace", "short_name", "root_namespace", "name_components"):
+    if (DEF + "." + _member) in REG.contracts:
+        NATIVE.add(DEF + "." + _member, _gen_def_name, _build_def_accessor(_member))
 
 NOT_COVERED = [
     "the four root-inference strategies of read_files / DSDLDefinition.from_first_in and every claim about relative / "
